@@ -97,6 +97,13 @@ CallsArePure == [][(last'.act \in {"synth", "gen", "step", "finish"}) => eng' = 
 SetterLocal == [][(last'.act = "set") => \A e \in Engines : e # last'.e => eng'[e] = eng[e]]_vars
 \* C03: a live generator is frozen at creation: later setter calls do not change what it will produce
 GenFrozen == [][\A g \in Gens : (gen[g] # NoGen /\ gen'[g] # NoGen) => gen'[g].key = gen[g].key]_vars
+\* C03: a clone starts with exactly the settings of its origin and creating it touches nothing else
+CloneCopies == [][(last'.act = "clone") => /\ eng'[last'.e2] = eng[last'.e]
+                                           /\ \A e \in Engines : e # last'.e2 => eng'[e] = eng[e]
+                                           /\ gen' = gen /\ outs' = outs]_vars
+\* C03: generators are private to their caller: driving one never moves another, and only finish publishes audio
+GenIndependent == [][(last'.act \in {"step", "finish"}) => \A h \in Gens : h # last'.g => gen'[h] = gen[h]]_vars
+OutsOnlyByCalls == [][outs' # outs => last'.act \in {"synth", "finish"}]_vars
 \* ---- laws of the dependency map itself, for an arbitrary condition c and utterances u, u2 (checked over all
 \*      conditions in MC_Deps)
 AllConds == [speed : Vals, thr : [Streams -> Vals], gvw : [Streams -> Vals], ht : Vals, vol : Vals, alpha : Vals, beta : Vals,
